@@ -19,10 +19,15 @@ class Deadlock(Exception):
     """nothing scheduled and nothing readable: the awaited operation can never complete"""
 
 
+class Unbounded(Exception):
+    """the awaited operation is still running after `horizon` virtual seconds (bounded-progress verdict in logical time)"""
+
+
 class VirtualTimeLoop(asyncio.SelectorEventLoop):
-    def __init__(self) -> None:
+    def __init__(self, horizon: float | None = None) -> None:
         super().__init__()
         self._vt = 0.0
+        self.horizon = horizon
         self.slept = 0
         real_select = self._selector.select
 
@@ -35,6 +40,8 @@ class VirtualTimeLoop(asyncio.SelectorEventLoop):
             if timeout > 0:
                 self._vt += timeout
                 self.slept += 1
+                if self.horizon is not None and self._vt > self.horizon:
+                    raise Unbounded()
             return events
 
         self._selector.select = select  # type: ignore[method-assign]
@@ -43,9 +50,10 @@ class VirtualTimeLoop(asyncio.SelectorEventLoop):
         return self._vt
 
 
-def run(coro: Coroutine[Any, Any, Any], debug: bool = False) -> Any:
-    """Run `coro` to completion in a fresh virtual-time loop. Raises Deadlock if it can never complete."""
-    loop = VirtualTimeLoop()
+def run(coro: Coroutine[Any, Any, Any], debug: bool = False, horizon: float | None = None) -> Any:
+    """Run `coro` to completion in a fresh virtual-time loop. Raises Deadlock if it can never complete, Unbounded if it is
+    still running after `horizon` virtual seconds (when a horizon is given)."""
+    loop = VirtualTimeLoop(horizon)
     try:
         asyncio.set_event_loop(loop)
         return loop.run_until_complete(coro)
